@@ -5,7 +5,8 @@
 //   * round trips through serde_json text (finite contents only), serde_cbor and borsh, compared bit for bit.
 use crate::{parse_segs, u64s, Num};
 use piecewise_polynomial::*;
-use serde::ser::{self, Serialize};
+use serde::ser;
+use serde::{Deserialize, Serialize};
 use serde_json::Value;
 
 #[derive(Debug)]
@@ -222,6 +223,51 @@ impl<'a> borsh::io::Read for Chunked<'a> {
     }
 }
 
+// the value nested in wrapper types whose derived Deserialize goes through serde's internal buffer (flatten, untagged,
+// internally tagged): the value must survive that route as well, in every format
+#[derive(Serialize)]
+struct InnerS<'a, V> {
+    value: &'a V,
+}
+#[derive(Serialize)]
+struct FlatS<'a, V> {
+    tag: u32,
+    #[serde(flatten)]
+    inner: InnerS<'a, V>,
+}
+#[derive(Deserialize)]
+struct InnerD<V> {
+    value: V,
+}
+#[derive(Deserialize)]
+struct FlatD<V> {
+    tag: u32,
+    #[serde(flatten)]
+    inner: InnerD<V>,
+}
+#[derive(Serialize)]
+#[serde(untagged)]
+enum UntaggedS<'a, V> {
+    A(&'a V),
+}
+#[derive(Deserialize)]
+#[serde(untagged)]
+enum UntaggedD<V> {
+    A(V),
+    #[allow(dead_code)]
+    B(bool),
+}
+#[derive(Serialize)]
+#[serde(tag = "kind")]
+enum TaggedS<'a, V> {
+    Curve { value: &'a V },
+}
+#[derive(Deserialize)]
+#[serde(tag = "kind")]
+enum TaggedD<V> {
+    Curve { value: V },
+}
+
 fn report<V>(v: &V, bits: &dyn Fn(&V) -> Vec<u64>, prefail: bool) -> Vec<u64>
 where
     V: Serialize + serde::de::DeserializeOwned + borsh::BorshSerialize + borsh::BorshDeserialize,
@@ -257,7 +303,19 @@ where
             Some(back) => bits(&back) == orig,
             None => false,
         };
-        (a && b && c) as u64
+        let w1 = match serde_json::to_string(&FlatS { tag: 7, inner: InnerS { value: v } }).ok().and_then(|t| serde_json::from_str::<FlatD<V>>(&t).ok()) {
+            Some(back) => back.tag == 7 && bits(&back.inner.value) == orig,
+            None => false,
+        };
+        let w2 = match serde_json::to_string(&UntaggedS::A(v)).ok().and_then(|t| serde_json::from_str::<UntaggedD<V>>(&t).ok()) {
+            Some(UntaggedD::A(back)) => bits(&back) == orig,
+            _ => false,
+        };
+        let w3 = match serde_json::to_string(&TaggedS::Curve { value: v }).ok().and_then(|t| serde_json::from_str::<TaggedD<V>>(&t).ok()) {
+            Some(TaggedD::Curve { value }) => bits(&value) == orig,
+            None => false,
+        };
+        (a && b && c && w1 && w2 && w3) as u64
     } else {
         2
     };
@@ -271,7 +329,19 @@ where
                 Ok(back) => bits(&back) == orig,
                 Err(_) => false,
             };
-            (a && b) as u64
+            let w1 = match serde_cbor::to_vec(&FlatS { tag: 7, inner: InnerS { value: v } }).ok().and_then(|t| serde_cbor::from_slice::<FlatD<V>>(&t).ok()) {
+                Some(back) => back.tag == 7 && bits(&back.inner.value) == orig,
+                None => false,
+            };
+            let w2 = match serde_cbor::to_vec(&UntaggedS::A(v)).ok().and_then(|t| serde_cbor::from_slice::<UntaggedD<V>>(&t).ok()) {
+                Some(UntaggedD::A(back)) => bits(&back) == orig,
+                _ => false,
+            };
+            let w3 = match serde_cbor::to_vec(&TaggedS::Curve { value: v }).ok().and_then(|t| serde_cbor::from_slice::<TaggedD<V>>(&t).ok()) {
+                Some(TaggedD::Curve { value }) => bits(&value) == orig,
+                None => false,
+            };
+            (a && b && w1 && w2 && w3) as u64
         }
         Err(_) => 0,
     };
@@ -287,6 +357,24 @@ where
                     }
                 }
                 Err(_) => chunked_ok = 0,
+            }
+        }
+        // the value FOLLOWED by more data in one stream: value, the same value again, then a marker; each reader must hand back
+        // both values bit for bit, then the marker, and then be exhausted (a reader that takes more than its own bytes shows here)
+        let mut stream = buf.clone();
+        stream.extend_from_slice(&buf);
+        stream.extend_from_slice(&0x1122_3344_5566_7788u64.to_le_bytes());
+        for chunk in [usize::MAX, 1usize, 7, 13, 64, 4096] {
+            let mut rd = Chunked { data: &stream, chunk };
+            let a = <V as borsh::BorshDeserialize>::deserialize_reader(&mut rd);
+            let b = <V as borsh::BorshDeserialize>::deserialize_reader(&mut rd);
+            let m = <u64 as borsh::BorshDeserialize>::deserialize_reader(&mut rd);
+            let fine = match (a, b, m) {
+                (Ok(a), Ok(b), Ok(m)) => bits(&a) == orig && bits(&b) == orig && m == 0x1122_3344_5566_7788u64 && rd.data.is_empty(),
+                _ => false,
+            };
+            if !fine {
+                chunked_ok = 2;
             }
         }
     } else {
